@@ -534,3 +534,111 @@ Proof.
   destruct (crtp_header_fields port chan) as (E1 & E2 & E3).
   unfold crtp_port, crtp_chan in E2, E3. now rewrite E1, E2, E3.
 Qed.
+
+(* ================================================================ any recv behaviour *)
+Lemma skipn_add {A} : forall a b (l : list A), skipn a (skipn b l) = skipn (b + a) l.
+Proof.
+  intros a b. induction b as [|b IH]; intros l; [reflexivity|].
+  destruct l as [|x l]; cbn [skipn Nat.add]; [now destruct a|apply IH].
+Qed.
+
+Lemma read_data_any_spec : forall need acc b out b2,
+  read_data_any need acc b out b2 -> need <= zlen b ->
+  out = acc ++ firstn (Z.to_nat need) b /\ b2 = skipn (Z.to_nat need) b.
+Proof.
+  induction 1 as [need acc b Hle | need acc b r b1 out b2 Hpos Hrecv Hrest IH]; intros Hlen.
+  - replace (Z.to_nat need) with 0%nat by lia. cbn [firstn skipn]. now rewrite app_nil_r.
+  - destruct Hrecv as [k Hk Hkn Hkb].
+    assert (Hr : zlen (firstn k b) = Z.of_nat k) by (unfold zlen; rewrite firstn_length; lia).
+    rewrite Hr in *.
+    destruct IH as [-> ->]. { rewrite zlen_skipn by lia. lia. }
+    replace (Z.to_nat need) with (k + Z.to_nat (need - Z.of_nat k))%nat by lia.
+    split.
+    + rewrite <- app_assoc. f_equal.
+      rewrite <- (firstn_skipn k b) at 3.
+      rewrite firstn_app_ge by (rewrite firstn_length; lia).
+      rewrite firstn_length. replace (Nat.min k (length b)) with k by lia.
+      f_equal. f_equal. lia.
+    + rewrite skipn_add. reflexivity.
+Qed.
+
+(* the socket can always deliver: with enough bytes pending some run exists (so the statement above is not vacuous) *)
+Lemma read_data_any_exists : forall need acc b, need <= zlen b ->
+  read_data_any need acc b (acc ++ firstn (Z.to_nat need) b) (skipn (Z.to_nat need) b).
+Proof.
+  intros need acc b Hlen. destruct (Z_le_gt_dec need 0) as [Hle|Hgt].
+  - replace (Z.to_nat need) with 0%nat by lia. cbn [firstn skipn]. rewrite app_nil_r. now constructor.
+  - eapply rd_step with (r := firstn (Z.to_nat need) b) (b1 := skipn (Z.to_nat need) b).
+    + lia.
+    + constructor; unfold zlen in *; lia.
+    + constructor. unfold zlen in *. rewrite firstn_length. lia.
+Qed.
+
+Lemma read_packet_any_spec : forall b r b2, read_packet_any b r b2 ->
+  2 <= zlen b -> le_val (firstn 2 b) <= zlen (skipn 2 b) ->
+  (r, b2) = parse_one b.
+Proof.
+  intros b r b2 [h b1 d b2' H1 H2] Hl1 Hl2.
+  destruct (read_data_any_spec _ _ _ _ _ H1 Hl1) as [-> ->]. cbn [app] in *. change (Z.to_nat 2) with 2%nat in *.
+  destruct (read_data_any_spec _ _ _ _ _ H2 Hl2) as [-> ->]. cbn [app].
+  unfold parse_one.
+  destruct (zlen b <? 2) eqn:E1; [lia|].
+  destruct (zlen (skipn 2 b) <? le_val (firstn 2 b)) eqn:E2; [lia|]. reflexivity.
+Qed.
+
+(* under ANY recv behaviour the stream of well-formed frames is read back packet by packet *)
+Lemma any_recv_frame : forall p b r b2, wf_cpx p -> read_packet_any (frame p ++ b) r b2 -> r = Ok p /\ b2 = b.
+Proof.
+  intros p b r b2 Hwf H.
+  pose proof (parse_one_frame p b Hwf) as Hp.
+  assert (Hq : (r, b2) = parse_one (frame p ++ b)).
+  { apply read_packet_any_spec; [assumption| |].
+    - unfold frame. rewrite <- app_assoc, zlen_app. unfold zlen at 1. rewrite le_bytes_length.
+      pose proof (zlen_nonneg (wire_data p ++ b)). lia.
+    - unfold frame. rewrite <- app_assoc. destruct (le_bytes2_prefix (c_len p + 2) (wire_data p ++ b)) as [-> ->].
+      destruct Hwf as (_ & _ & _ & _ & Hn & Hmax). pose proof (zlen_nonneg (c_data p)).
+      rewrite le_val_le_bytes_id by (change (256 ^ Z.of_nat 2) with 65536; lia).
+      rewrite zlen_app, zlen_wire_data. pose proof (zlen_nonneg b). lia. }
+  rewrite Hp in Hq. injection Hq as -> ->. auto.
+Qed.
+
+Lemma any_recv_stream : forall ps b rs b2, Forall wf_cpx ps ->
+  read_n_any (concat (map frame ps) ++ b) rs b2 -> length rs = length ps ->
+  rs = map Ok ps /\ b2 = b.
+Proof.
+  induction ps as [|p ps IH]; intros b rs b2 Hwf H Hlen.
+  - destruct rs; [|discriminate]. inversion H; subst. auto.
+  - destruct rs as [|r rs]; [discriminate|]. inversion Hwf as [|? ? Hp Hps]; subst.
+    cbn [map concat] in H. rewrite <- app_assoc in H.
+    inversion H as [|? ? b1 ? ? Hr Hrest]; subst.
+    destruct (any_recv_frame p _ r b1 Hp Hr) as [-> ->].
+    cbn [length] in Hlen. destruct (IH b rs b2 Hps Hrest ltac:(lia)) as [-> ->]. auto.
+Qed.
+
+(* such runs exist: e.g. the socket that always returns everything asked for *)
+Lemma any_recv_stream_exists : forall ps b, Forall wf_cpx ps ->
+  read_n_any (concat (map frame ps) ++ b) (map Ok ps) b.
+Proof.
+  induction ps as [|p ps IH]; intros b Hwf; cbn [map concat app].
+  - constructor.
+  - inversion Hwf as [|? ? Hp Hps]; subst. rewrite <- app_assoc.
+    apply rn_cons with (b1 := concat (map frame ps) ++ b); [|now apply IH].
+    set (rest := concat (map frame ps) ++ b).
+    pose proof (parse_one_frame p rest Hp) as Hpo.
+    destruct Hp as (_ & _ & _ & _ & Hn & Hmax). pose proof (zlen_nonneg (c_data p)) as Hnn.
+    assert (Hfr : frame p ++ rest = le_bytes 2 (c_len p + 2) ++ wire_data p ++ rest) by (unfold frame; now rewrite <- app_assoc).
+    assert (Hset : set_wire (wire_data p) = Ok p).
+    { rewrite parse_one_frame_gen in Hpo by lia. now injection Hpo. }
+    rewrite <- Hset.
+    apply rp_any with (h := le_bytes 2 (c_len p + 2)) (b1 := wire_data p ++ rest).
+    + rewrite Hfr. destruct (le_bytes2_prefix (c_len p + 2) (wire_data p ++ rest)) as [E1 E2].
+      pose proof (read_data_any_exists 2 [] (le_bytes 2 (c_len p + 2) ++ wire_data p ++ rest)) as H.
+      change (Z.to_nat 2) with 2%nat in H. rewrite E1, E2 in H. cbn [app] in H. apply H.
+      rewrite zlen_app. unfold zlen at 1. rewrite le_bytes_length. pose proof (zlen_nonneg (wire_data p ++ rest)). lia.
+    + rewrite le_val_le_bytes_id by (change (256 ^ Z.of_nat 2) with 65536; lia).
+      pose proof (read_data_any_exists (c_len p + 2) [] (wire_data p ++ rest)) as H.
+      replace (Z.to_nat (c_len p + 2)) with (length (wire_data p)) in H
+        by (pose proof (zlen_wire_data p); unfold zlen in *; lia).
+      rewrite firstn_app_exact, skipn_app_exact in H. cbn [app] in H. apply H.
+      rewrite zlen_app, zlen_wire_data. pose proof (zlen_nonneg rest). lia.
+Qed.
